@@ -105,7 +105,9 @@ ExtsAreInputBytes(b, o) ==
        IF o.profile \in {OneByte, TwoByte}
        THEN o.exts = LooseWalk(b, extStart, Len(b), o.profile, <<>>, Len(o.exts))
        ELSE /\ Len(o.exts) = 1 /\ o.exts[1].id = 0
-            /\ Len(o.exts[1].val) = 4 * (256 * At(b, extStart - 2) + At(b, extStart - 1))     \* the block its length word announces (RFC 3550 5.3.1), no other bytes
+            \* when the block its length word announces (RFC 3550 5.3.1) lies inside the input, the value is that block, whole;
+            \* what a decoder does with an input that announces more than it holds stays its choice
+            /\ LET w4 == 4 * (256 * At(b, extStart - 2) + At(b, extStart - 1)) IN extStart + w4 <= Len(b) => Len(o.exts[1].val) = w4
             /\ extStart + Len(o.exts[1].val) <= Len(b)
             /\ o.exts[1].val = Sub(b, extStart, extStart + Len(o.exts[1].val))
 AnyPanic(e) == "panic" \in {e.fresh.res, e.used.res, e.hfresh.res, e.hused.res}
